@@ -29,7 +29,7 @@ type bop struct {
 }
 
 type op struct {
-	Kind       string // batch | get | del | iter | hold | delcur
+	Kind       string // batch | get | del | iter | hold | delcur | holddrain (iterate, commit Batch, drain)
 	Batch      []bop
 	K          []byte
 	Start, End []byte
@@ -49,6 +49,8 @@ type obs struct {
 	Out    []kvp
 	Held   bool
 	ErrStr string
+	After  []kvp  // holddrain: what the iterator delivered after the batch
+	BClass string // holddrain: the class of the batch
 }
 
 func cp(b []byte) []byte { c := make([]byte, len(b)); copy(c, b); return c }
@@ -175,6 +177,51 @@ func (r *runner) exec(o op) (res obs) {
 		}
 		r.held = it
 		res.Held = true
+	case "holddrain":
+		it, err := r.kv.Iter(ctx, cp(o.Start), cp(o.End), 0, o.Limit)
+		if err != nil {
+			res.Class, _, _, _, _ = classify(err)
+			return
+		}
+		defer it.Close()
+		res.Class = "ROk"
+		eof := false
+		next := func(dst *[]kvp) bool {
+			err := it.Next(ctx)
+			if err == io.EOF {
+				eof = true
+				return false
+			}
+			if err != nil {
+				res.Class, _, _, _, _ = classify(err)
+				res.ErrStr = err.Error()
+				eof = true
+				return false
+			}
+			*dst = append(*dst, kvp{cp(it.Key()), cp(it.Val())})
+			return true
+		}
+		for n := 0; n <= o.J && next(&res.Out); n++ {
+		}
+		b := r.kv.BeginBatchWrite()
+		for _, x := range o.Batch {
+			switch x.Kind {
+			case "putnx":
+				b.PutIfNotExist(cp(x.K), cp(x.V), 0)
+			case "cas":
+				b.CAS(cp(x.K), cp(x.V), cp(x.Ov), 0)
+			case "put":
+				b.Put(cp(x.K), cp(x.V), 0)
+			case "del":
+				b.Del(cp(x.K))
+			case "delcur":
+				b.DelCurrent(r.held)
+			}
+		}
+		berr := b.Commit(ctx)
+		res.BClass, res.HasCf, res.CfIdx, res.CfKey, res.CfVal = classify(berr)
+		for n := 0; !eof && n < 100000 && next(&res.After); n++ {
+		}
 	}
 	return
 }
@@ -211,6 +258,12 @@ func coqOp(o op) string {
 		return lib.App("SIter", lib.Bytes(o.Start), lib.Bytes(o.End), lib.N(o.Limit))
 	case "hold":
 		return lib.App("SHold", lib.Bytes(o.Start), lib.Bytes(o.End), lib.N(o.Limit), lib.Nat(o.J))
+	case "holddrain":
+		xs := make([]string, len(o.Batch))
+		for i, x := range o.Batch {
+			xs[i] = coqBop(x)
+		}
+		return lib.App("SHoldDrain", lib.Bytes(o.Start), lib.Bytes(o.End), lib.N(o.Limit), lib.Nat(o.J), lib.List(xs))
 	}
 	return "SDelCur"
 }
@@ -246,6 +299,8 @@ func coqObs(o op, r obs) string {
 		return lib.App("OIter", r.Class, coqOut(r.Out))
 	case "hold":
 		return lib.App("OHold", r.Class, coqOut(r.Out), lib.Bool(r.Held))
+	case "holddrain":
+		return lib.App("OHoldDrain", r.Class, coqOut(r.Out), r.BClass, coqCf(r), coqOut(r.After))
 	}
 	return lib.App("ODelCur", r.Class, coqCf(r))
 }
@@ -287,6 +342,19 @@ func jsonStep(o op, r obs) map[string]interface{} {
 		if o.Kind == "hold" {
 			m["j"], m["held"] = o.J, r.Held
 		}
+	case "holddrain":
+		short := func(xs []string) []string {
+			if len(xs) > 8 {
+				return append(append([]string{}, xs[:3]...), append([]string{fmt.Sprintf("… %d more …", len(xs)-6)}, xs[len(xs)-3:]...)...)
+			}
+			return xs
+		}
+		var bs []string
+		for _, x := range o.Batch {
+			bs = append(bs, fmt.Sprintf("%s(%q,%q)", x.Kind, x.K, x.V))
+		}
+		m["start"], m["end"], m["limit"], m["j"] = lib.Q(o.Start), lib.Q(o.End), o.Limit, o.J
+		m["before_batch"], m["batch"], m["batch_class"], m["after_batch"] = short(jsonOut(r.Out)), bs, r.BClass, short(jsonOut(r.After))
 	}
 	if r.HasCf {
 		m["conflict"] = fmt.Sprintf("idx=%d key=%q val=%q", r.CfIdx, r.CfKey, r.CfVal)
@@ -298,7 +366,21 @@ func jsonStep(o op, r obs) map[string]interface{} {
 }
 
 var coqEng = map[string]string{lib.EngMem: "EMem", lib.EngBadger: "EBadger", lib.EngTiKV: "ETiKV",
-	lib.EngWrapMem: "EWrapMem", lib.EngWrapBadger: "EWrapBadger"}
+	lib.EngWrapMem: "EWrapMem", lib.EngWrapBadger: "EWrapBadger", engWrapTiKV: "EWrapTiKV"}
+
+// the metrics wrapper over the TiKV mock (lib.NewEngine knows the wrapper over memkv and Badger only)
+const engWrapTiKV = "wrap-tikv"
+
+func newEngine(eng, scratch string) (storage.KvStorage, func(), error) {
+	if eng == engWrapTiKV {
+		kv, cl, err := lib.NewEngine(lib.EngTiKV, scratch)
+		if err != nil {
+			return nil, nil, err
+		}
+		return imetrics.NewKvStorage(kv, &lib.NopMetrics{}), cl, nil
+	}
+	return lib.NewEngine(eng, scratch)
+}
 
 // ---------- generation ----------
 
@@ -434,7 +516,21 @@ func (g *gen) next() op {
 		return op{Kind: "del", K: g.key()}
 	case c < 16:
 		return g.iter("iter")
-	case c < 18 || !g.held:
+	case c < 17:
+		return g.iter("hold")
+	case c < 18:
+		o := g.iter("iter")
+		o.Kind, o.J = "holddrain", g.r.Intn(3)
+		b := g.batch()
+		var plain []bop
+		for _, x := range b.Batch {
+			if x.Kind != "delcur" || g.held {
+				plain = append(plain, x)
+			}
+		}
+		o.Batch = plain
+		return o
+	case !g.held:
 		return g.iter("hold")
 	default:
 		return op{Kind: "delcur"}
@@ -444,6 +540,10 @@ func (g *gen) next() op {
 // apply updates the driver's belief after a successful batch
 func (g *gen) apply(o op, r obs) {
 	if r.Class != "ROk" {
+		return
+	}
+	if o.Kind == "holddrain" && r.BClass == "ROk" {
+		g.apply(op{Kind: "batch", Batch: o.Batch}, obs{Class: "ROk"})
 		return
 	}
 	switch o.Kind {
@@ -649,98 +749,6 @@ func bigBatch(kv storage.KvStorage, n, keylen int, failing bool) (class string, 
 	return class, len(found), errStr
 }
 
-// snapshotCase stores n records, opens an iterator over all of them, reads `before` records, commits one batch that
-// changes records on both sides of what has been read, drains the iterator and compares the drained sequence with the
-// content at the moment the iterator was created.
-func snapshotCase(kv storage.KvStorage, n int, fwd bool, before int) (missing, extra int, inorder, applied bool, errStr string) {
-	ctx := context.Background()
-	defer func() {
-		if p := recover(); p != nil {
-			errStr = fmt.Sprint(p)
-		}
-	}()
-	key := func(i int) []byte { return []byte(fmt.Sprintf("snap/%05d", i)) }
-	val := func(i int) []byte { return []byte(fmt.Sprintf("v%d", i)) }
-	for lo := 0; lo < n; lo += 100 {
-		b := kv.BeginBatchWrite()
-		for i := lo; i < lo+100 && i < n; i++ {
-			b.Put(key(i), val(i), 0)
-		}
-		if err := b.Commit(ctx); err != nil {
-			return 0, 0, false, false, "setup: " + err.Error()
-		}
-	}
-	atCreation := map[string]string{}
-	for i := 0; i < n; i++ {
-		atCreation[string(key(i))] = string(val(i))
-	}
-	start, end := []byte("snap/"), []byte("snap0")
-	if !fwd {
-		start, end = end, start
-	}
-	it, err := kv.Iter(ctx, start, end, 0, 0)
-	if err != nil {
-		return 0, 0, false, false, "iter: " + err.Error()
-	}
-	defer it.Close()
-	var seq []kvp
-	read := func(max int) bool { // false = io.EOF reached
-		for i := 0; max < 0 || i < max; i++ {
-			err := it.Next(ctx)
-			if err == io.EOF {
-				return false
-			}
-			if err != nil {
-				errStr = "next: " + err.Error()
-				return false
-			}
-			seq = append(seq, kvp{cp(it.Key()), cp(it.Val())})
-			if len(seq) > 4*n {
-				errStr = "iterator does not end"
-				return false
-			}
-		}
-		return true
-	}
-	if read(before) {
-		b := kv.BeginBatchWrite()
-		b.Put(key(3), []byte("changed"), 0)
-		b.Put(key(n/2), []byte("changed"), 0)
-		b.Del(key(n - 4))
-		if err := b.Commit(ctx); err != nil {
-			return 0, 0, false, false, "batch: " + err.Error()
-		}
-		read(-1)
-	}
-	seen := map[string]bool{}
-	inorder = true
-	for i, e := range seq {
-		if v, ok := atCreation[string(e.K)]; !ok || v != string(e.V) || seen[string(e.K)] {
-			extra++
-		}
-		seen[string(e.K)] = true
-		if i > 0 {
-			c := bytes.Compare(seq[i-1].K, e.K)
-			if (fwd && c >= 0) || (!fwd && c <= 0) {
-				inorder = false
-			}
-		}
-	}
-	got := map[string]string{}
-	for _, e := range seq {
-		got[string(e.K)] = string(e.V)
-	}
-	for k, v := range atCreation {
-		if got[k] != v {
-			missing++
-		}
-	}
-	v3, e3 := kv.Get(ctx, key(3))
-	_, eDel := kv.Get(ctx, key(n-4))
-	applied = e3 == nil && string(v3) == "changed" && errors.Is(eDel, storage.ErrKeyNotFound)
-	return
-}
-
 // interleave: batch 1 is begun and guarded by a condition on `guard`; a second batch rewrites `guard` and commits
 // (memkv holds its mutex from BeginBatchWrite, so there the second batch can only start once the first has committed);
 // then batch 1 commits.  Variants of the guard: 0 = CAS(guard, v1, v1) (a no-op swap), 1 = CAS(guard, v1b, v1),
@@ -881,11 +889,12 @@ func main() {
 		perEngine = 500
 	}
 	w := lib.NewWriter(args, "C11", "c11", "From KB Require Import Model.C11Cases.", "c11_case", "c11_check", "c11_oracle", 400)
-	engines := []string{lib.EngMem, lib.EngBadger, lib.EngTiKV, lib.EngWrapMem, lib.EngWrapBadger}
+	engines := []string{lib.EngMem, lib.EngBadger, lib.EngTiKV, lib.EngWrapMem, lib.EngWrapBadger, engWrapTiKV}
 	opKinds := map[string]int{}
+	invalid := map[string]int{}
 
 	for _, eng := range engines {
-		kv, closer, err := lib.NewEngine(eng, args.Scratch)
+		kv, closer, err := newEngine(eng, args.Scratch)
 		if err != nil {
 			w.Fail(lib.ImplFailure{CaseID: -1, What: "cannot open engine " + eng + ": " + err.Error()})
 			continue
@@ -897,6 +906,7 @@ func main() {
 			}
 			r := &runner{kv: kv}
 			var steps []string
+			var seqOps []op
 			var jsteps []interface{}
 			outcomes := map[string]bool{}
 			i := 0
@@ -924,6 +934,7 @@ func main() {
 				}
 				opKinds[o.Kind]++
 				outcomes[o.Kind+":"+res.Class] = true
+				seqOps = append(seqOps, o)
 				steps = append(steps, lib.Pair(coqOp(o), coqObs(o, res)))
 				jsteps = append(jsteps, jsonStep(o, res))
 				if res.Class == "RPanic" {
@@ -947,6 +958,9 @@ func main() {
 			var fin []kvp
 			for _, e := range d {
 				fin = append(fin, kvp{e.K, e.V})
+			}
+			if why := uncleanReason(eng, seqOps, classes["RPanic"]); why != "" {
+				invalid[why]++ // mirrors c11_cleanb: outside the side condition of C11_oracle_sound (a finding's precondition)
 			}
 			w.Add(lib.Case{Kind: kind + "/" + eng,
 				Coq:      lib.App("mk_c11", coqEng[eng], lib.List(steps), coqOut(fin)),
@@ -974,22 +988,31 @@ func main() {
 				JSON:     map[string]interface{}{"engine": eng, "name": "big-batch", "puts": bigN, "keylen": bigLen, "failing_cas": failing, "class": cl, "visible": vis, "err": es},
 				Outcomes: []string{"bigbatch:" + cl}})
 		}
-		// one consistent snapshot: what an open iterator delivers does not depend on batches committed meanwhile
+		// one consistent snapshot: what an open iterator delivers does not depend on a batch committed meanwhile.
+		// 300 records; iterator over all of them (forward / backward); 10 records read; one batch that changes records on
+		// both sides; drained.  A sequence like any other: the adapter model must reproduce it and the contract oracle
+		// judges everything the iterator delivered against the state at its creation.
 		for _, fwd := range []bool{true, false} {
-			const snapN, snapBefore = 300, 10
-			_ = clear(kv)
-			mi, ex, io2, ap, es := snapshotCase(kv, snapN, fwd, snapBefore)
-			if es != "" {
-				w.Fail(lib.ImplFailure{CaseID: w.Len(), What: "snapshot case on " + eng + ": " + es})
-			} else {
-				w.Add(lib.Case{Kind: "fixed:snapshot/" + eng,
-					Coq: lib.App("KSnapshot", coqEng[eng], lib.N(snapN), lib.Bool(fwd), lib.N(snapBefore),
-						lib.N(uint64(mi)), lib.N(uint64(ex)), lib.Bool(io2), lib.Bool(ap)),
-					JSON: map[string]interface{}{"engine": eng, "name": "snapshot", "records": snapN, "forward": fwd, "read_before_batch": snapBefore,
-						"batch": "Put k3, Put k150, Del k296", "missing_or_altered": mi, "not_in_snapshot": ex, "in_order": io2, "batch_applied": ap},
-					Outcomes: []string{fmt.Sprintf("snapshot:missing=%d,extra=%d", mi, ex)}})
+			const snapN = 300
+			key := func(i int) []byte { return []byte(fmt.Sprintf("snap/%05d", i)) }
+			var ops []op
+			for lo := 0; lo < snapN; lo += 100 {
+				var bs []bop
+				for i := lo; i < lo+100; i++ {
+					bs = append(bs, bop{Kind: "put", K: key(i), V: []byte(fmt.Sprintf("v%d", i))})
+				}
+				ops = append(ops, op{Kind: "batch", Batch: bs})
 			}
-			_ = clear(kv)
+			start, end := []byte("snap/"), []byte("snap0")
+			if !fwd {
+				start, end = end, start
+			}
+			ops = append(ops,
+				op{Kind: "holddrain", Start: start, End: end, J: 9, Batch: []bop{
+					{Kind: "put", K: key(3), V: []byte("changed")}, {Kind: "put", K: key(snapN / 2), V: []byte("changed")}, {Kind: "del", K: key(snapN - 4)}}},
+				op{Kind: "get", K: key(3)}, op{Kind: "get", K: key(snapN - 4)},
+				op{Kind: "holddrain", Start: start, End: end, Limit: 5, J: 1, Batch: []bop{{Kind: "del", K: key(0)}, {Kind: "del", K: key(snapN - 1)}}})
+			runSeq("fixed:snapshot", ops, nil, 0)
 		}
 		// two interleaved batches: the guard of the first is invalidated by the second before the first commits
 		for variant := 0; variant < 3; variant++ {
@@ -1035,11 +1058,40 @@ func main() {
 		}
 	}
 	w.Stats.Extra["op_kinds"] = opKinds
+	// cases outside c11_cleanb (the Coq side proves C11_oracle_sound_checked for all the others), by reason
+	w.Stats.Extra["invalid_cases"] = invalid
 	if err := w.Finish("one case = one operation sequence (length <= 25) on one engine, starting from the emptied engine; keys from a pool of 9 (prefix-related, 0x00, 0xff), bounds from keys plus 10 in-between/outside values; non-trivial = at least two different result classes occurred in the sequence; distinct = SHA-256 of the Coq case"); err != nil {
 		fmt.Fprintln(os.Stderr, err)
 		os.Exit(2)
 	}
 	_ = bytes.Compare
+}
+
+// uncleanReason mirrors c11_cleanb (Model/C11Cases.v): "" = the case is covered by C11_oracle_sound_checked
+func uncleanReason(eng string, ops []op, panicked bool) string {
+	if panicked {
+		return "panic"
+	}
+	for _, o := range ops {
+		if o.Kind != "batch" && o.Kind != "holddrain" {
+			continue
+		}
+		written := false
+		for _, x := range o.Batch {
+			switch x.Kind {
+			case "putnx", "put", "cas":
+				if (eng == lib.EngTiKV || eng == engWrapTiKV) && len(x.V) == 0 {
+					return "tikv: empty value written (precondition of finding C11-F1)"
+				}
+				written = true
+			case "delcur":
+				if written && (eng == lib.EngBadger || eng == lib.EngWrapBadger) {
+					return "badger: DelCurrent after a write in the same batch (precondition of finding C11-F2)"
+				}
+			}
+		}
+	}
+	return ""
 }
 
 func hasDelCur(o op) bool {
